@@ -148,6 +148,22 @@ func OriginsVia(v ssa.Value) ([]Origin, map[string]bool) {
 							n++
 							walk(st.Val, d+1)
 						}
+						// the variable may also be assigned inside a function literal that captures it
+						if mc, ok := r.(*ssa.MakeClosure); ok {
+							if f, isF := mc.Fn.(*ssa.Function); isF {
+								for i, b := range mc.Bindings {
+									if b != ssa.Value(a) || i >= len(f.FreeVars) {
+										continue
+									}
+									for _, fr := range *f.FreeVars[i].Referrers() {
+										if st, isSt := fr.(*ssa.Store); isSt && st.Addr == ssa.Value(f.FreeVars[i]) {
+											n++
+											walk(st.Val, d+1)
+										}
+									}
+								}
+							}
+						}
 					}
 					if n == 0 {
 						add(Origin{"alloc", a.Comment, a})
